@@ -677,6 +677,7 @@ def r10_14(prog, rid="R10.14", floor=1200, what="the compiler"):
     return r
 
 
+
 def run(ctx):
     prog = ctx.prog("K")
     tab = load_tables("c10")
